@@ -36,7 +36,7 @@ def sizeof_value(F, fn, t):
         return sizeof_value(F, fn, t[2])
     if t[0] == 'call' and t[1].endswith('mem::size_of'):
         c = fn.call_at(t[3])
-        g = (c.gargs or '').strip('[]')
+        g = ','.join(c.gnames)
         if g in INT_W:
             return INT_W[g]
         a = F.adts.get(g)
